@@ -3,6 +3,7 @@
 #define W_AUDIT_NEW_STATES_ONLY 1   /* the key holds the implementation's raw state AND the reference model, so the audit verdict is a function of the key */
 #include "../engine/mc.h"
 #include <sanitizer/asan_interface.h>
+#include <limits.h>
 
 #define PC13 P(0)
 #define PC15 P(1)
@@ -94,8 +95,10 @@ static int idx_of(const void *e)
 }
 static int cmp_elem(const void *a, const void *b, void *p)
 {
+    int d = ((const struct elem *)a)->val - ((const struct elem *)b)->val;
     (void)p;
-    return ((const struct elem *)a)->val - ((const struct elem *)b)->val;
+    if (MIXED) return d < 0 ? INT_MIN : d > 0 ? INT_MAX : 0;      /* the mixed configurations also use a comparator with extreme magnitudes */
+    return d;
 }
 
 static int seen_seq[4 * MAXN + 8], seen_n, cb_stop_at;
@@ -105,7 +108,7 @@ static int cb_collect(void *e, void *p)
     if (seen_n < 4 * MAXN + 8) seen_seq[seen_n] = idx_of(e);
     seen_n++;
     if (seen_n > 4 * MAXN) return 99;
-    if (cb_stop_at >= 0 && seen_n == cb_stop_at + 1) return cb_stop_at + 1;
+    if (cb_stop_at >= 0 && seen_n == cb_stop_at + 1) return (cb_stop_at & 1) ? -(cb_stop_at + 1) : cb_stop_at + 1;      /* stop values of both signs */
     return 0;
 }
 static int clr_count[MAXN], clr_bad;
@@ -262,7 +265,7 @@ static void w_audit(void)
         if (mc_branch_dead) return;
         for (j = 0; j < m_len[l]; j++) {
             collect(l, j, &ab, &r);
-            MC_CHECK(PC13, !ab && r == j + 1 && seen_n == j + 1, "foreach(list %d) with a visitor returning %d at visit %d: returned %d after %d visits", l, j + 1, j, r, seen_n);
+            MC_CHECK(PC13, !ab && r == ((j & 1) ? -(j + 1) : j + 1) && seen_n == j + 1, "foreach(list %d) with a visitor returning %d at visit %d: returned %d after %d visits", l, j + 1, j, r, seen_n);
         }
     }
     for (k = 0; k < N; k++) MC_CHECK(PC13, pool[k].pad == 0x1111 && pool[k].tail == 0x2222 && pool[k].pad2 == 0x3333 && pool[k].val == vals[k], "element %d bytes outside its list node were modified", k);
@@ -296,6 +299,7 @@ static void w_canon(void)
     int l, i;
     for (l = 0; l < NL; l++) canon_one(l);
     KB_C('m'); for (i = 0; i < N; i++) KB_I(m_where[i]);
+    for (i = 0; i < N; i++) if (pool[i].pad != 0x1111 || pool[i].tail != 0x2222 || pool[i].pad2 != 0x3333 || pool[i].val != vals[i]) { KB_C('X'); KB_U((unsigned)i); }
 }
 /* C15: after clear the container must be field-for-field what cstl_*_init produces */
 static void check_fresh(int l)
